@@ -55,8 +55,11 @@ class TSpec:
 
 
 class TInt(TSpec):
-    def __init__(self, lo=None, hi=None, default=1):
-        self.lo, self.hi, self.default = lo, hi, default
+    def __init__(self, lo=None, hi=None, default=1, cands=()):
+        self.lo, self.hi, self.default, self.cands = lo, hi, default, cands
+
+    def candidates(self, name):
+        return [{name: v} for v in self.cands]
 
     def fresh(self, name, path):
         s = Sym(z3.Int(name))
@@ -74,8 +77,11 @@ class TInt(TSpec):
 
 
 class TReal(TSpec):
-    def __init__(self, lo=None, hi=None, default=0):
-        self.lo, self.hi, self.default = lo, hi, default
+    def __init__(self, lo=None, hi=None, default=0, cands=()):
+        self.lo, self.hi, self.default, self.cands = lo, hi, default, cands
+
+    def candidates(self, name):
+        return [{name: v} for v in self.cands]
 
     def fresh(self, name, path):
         s = Sym(z3.Real(name))
@@ -118,9 +124,24 @@ class TTuple(TSpec):
         return [type(self)(*combo) for combo in itertools.product(*[t.cases() for t in self.items])]
 
     def candidates(self, name):
+        per = [t.candidates(f"{name}_{i}") for i, t in enumerate(self.items)]
+        if not any(per):
+            return []
+        n = max(len(p) for p in per)
         out = []
-        for i, t in enumerate(self.items):
-            out.extend(t.candidates(f"{name}_{i}"))
+        for k in range(n):
+            d = {}
+            ok = True
+            for p in per:
+                if not p:
+                    continue
+                c = p[min(k, len(p) - 1)]
+                if not isinstance(c, dict):
+                    ok = False
+                    break
+                d.update(c)
+            if ok and d:
+                out.append(d)
         return out
 
 
@@ -281,7 +302,7 @@ class TObj(TSpec):
     def src(self, name, model):
         if self._src is not None:
             return self._src
-        return "None  # object inputs are built by the custom replay"
+        return "None"
 
     def candidates(self, name):
         out = []
@@ -364,7 +385,7 @@ class Contract:
 
         def called(key, n=0):
             """ghost: result of the n-th modular call to `key` on this path"""
-            hits = [r for (k, b, r) in interp.call_log if k == key or k.endswith(key)]
+            hits = [r for (k, b, r) in interp.call_log if key in k]
             if len(hits) <= n:
                 return _NoCall()        # compares unequal / non-identical to everything
             return hits[n]
@@ -379,7 +400,7 @@ class Contract:
         vars["old"] = old
 
         def called_args(key, n=0):
-            hits = [b for (k, b, r) in interp.call_log if k == key or k.endswith(key)]
+            hits = [b for (k, b, r) in interp.call_log if key in k]
             if len(hits) <= n:
                 return _NoCallArgs()
             return hits[n]
